@@ -19,7 +19,7 @@ RULE = ("directory trees (as C13) x 0..5 exclude patterns built from the tree's 
         "pattern set matching every CMake file of a directory; distinct by SHA-1 of the case")
 ASSUMPTIONS = ["patterns are matched against absolute paths (as the help text of -e and the docs state); sandbox ancestors "
                "use names no generated pattern matches", "auto-exclusion off, recursive on unless drawn otherwise"]
-BUDGET = {"quick": {"shards": 4, "examples": 150}, "thorough": {"shards": 16, "examples": 2500}}
+BUDGET = {"quick": {"shards": 8, "examples": 200}, "thorough": {"shards": 16, "examples": 2500}}
 
 PATTERN_KINDS = ["file", "dir", "dir/", "glob", "**/name", "**/dir/name", "absfile", "absdir", "absdir/", "input", "**/dir/",
                  "allcmake"]
